@@ -20,7 +20,7 @@ ASSUMPTIONS = [
     "main samplers yield len(sampler) indices per iteration (stated in the property's quantifier)",
     "side passes are only used as traffic between main updates here; their content is judged by C05",
 ]
-MONITORS = ["main_events_compared", "epoch_announcements_compared", "batch_sampler_runs", "stop_points_compared"]
+MONITORS = ["concurrent_iterator_pairs_compared", "main_events_compared", "epoch_announcements_compared", "batch_sampler_runs", "stop_points_compared"]
 
 MAIN_KINDS = ["rec", "rec", "rec", "rec_noepoch", "torch_seq", "torch_rand", "kd_rand_rep", "kd_dist", "torch_dist2", "kd_dist2"]
 
@@ -170,6 +170,45 @@ def run_case(run, spec):
                                                       f"({len(_main_only(events, M))}{'+' if not finished2 else ''} vs {len(_main_only(first, M))} main events; first differing event "
                                                       f"{next((i for i, (a, b) in enumerate(zip(_main_only(events, M), _main_only(first, M))) if a != b), None)})")
             return
+    # ---- two live iterators over ONE sampler object, advanced alternately: each is the whole stream (the counters of an iteration belong
+    #      to that iteration, not to the sampler object)
+    if spec["main_kind"] == "rec" and spec["seed"] % 3 == 1 and len(mdl["events"]) <= 4000:
+        ok, built3 = call_real(run, lambda: H.build_real(gm, budget, cfgs, spec["seed"], "rec"), crash_key="ctor-crash", what="InterleavedSampler(...)")
+        if not ok:
+            return
+        s3 = built3[0]
+        stride = 1 + spec["seed"] % 4
+
+        def alternate():
+            its = [iter(s3), iter(s3)]
+            outs, done = [[], []], [False, False]
+            with H.StepBudget(400 * cap + 10000, H.sched_codes(), what="two alternating iterators"):
+                while not all(done):
+                    for k in (0, 1):
+                        for _ in range(stride if k == 0 else 1):
+                            if done[k]:
+                                break
+                            try:
+                                ev = next(its[k])
+                            except StopIteration:
+                                done[k] = True
+                                break
+                            outs[k].append((bool(ev[0]), int(ev[1])))
+                            if len(outs[k]) >= cap:
+                                done[k] = True
+            return outs
+        ok, outs = call_real(run, alternate, what="two live iterators over the same InterleavedSampler")
+        if not ok:
+            return
+        run.count("concurrent_iterator_pairs_compared")
+        want_all = [(e[0], e[1]) for e in mdl["events"]]
+        for k in (0, 1):
+            if outs[k] != want_all:
+                d = next((i for i, (a, b) in enumerate(zip(outs[k], want_all)) if a != b), min(len(outs[k]), len(want_all)))
+                run.violation("concurrent-iterators-share-state", f"{_desc(spec)}: iterator {k} of two live iterators over one sampler object (advanced alternately, {stride}:1) "
+                                                                  f"yields {len(outs[k])} events vs {len(want_all)} of the stream; first difference at event {d}: "
+                                                                  f"{outs[k][d:d + 4]} vs {want_all[d:d + 4]}")
+                return
     run.sample({"spec": _desc(spec), "main_events": len(real_main), "epochs_announced": [e for e, _ in want_epochs], "head": events[:10]})
 
 
